@@ -68,6 +68,11 @@ func installHooks() {
 		if s == nil {
 			return
 		}
+		if site == "pipe.cleanup.spin" && s.IsDown() {
+			// the run is over; a clean-up loop that still has registered callers (hung calls) would spin forever and
+			// keep the bubble alive: block it for good, the bubble then ends with "blocked goroutines remain"
+			select {}
+		}
 		if site == "pipe.cleanup.spin" && !fineSites.Load() {
 			// The clean-up loop of a dead pipe spins with Gosched while callers are still registered. A spinning
 			// goroutine is never durably blocked and would freeze the fake clock, so under the simulator it polls
